@@ -13,6 +13,7 @@ import SymfcModel.Model.SumRule
 import SymfcModel.Model.Coset
 import SymfcModel.Model.Solver
 import SymfcModel.Model.Api
+import SymfcModel.Model.ApiMulti
 import SymfcModel.Model.Eig
 import SymfcModel.Model.SgPerm
 import SymfcModel.Model.SgPermFull
@@ -185,6 +186,57 @@ def stateJ (s : ApiState) : Json :=
     ("fc", Json.arr (s.fc.map (fun (k, v) => Json.mkObj [("key", Json.num (JsonNumber.fromNat k)), ("val", fcValJ v)])).toArray),
     ("basis", Json.arr (s.basis.map (fun (k, b) => Json.mkObj [("key", Json.num (JsonNumber.fromNat k)), ("val", basisJ b)])).toArray)]
 
+/-- multi-object API (`Model/ApiMulti.lean`): one operation of the `"api_multi"` request -/
+def jMOp (j : Json) : Except String MOp := do
+  let t ← (← j.getObjVal? "t").getStr?
+  match t with
+  | "new" => do
+    let natom ← jNat j "natom"
+    let cfgId ← jNat j "cfgId"
+    let cutj ← (← j.getObjVal? "cutoff").getArr?
+    let cutoff ← cutj.toList.mapM (fun e => do
+      let k ← jNat e "key"; let v ← jOptNat e "val"; pure (k, v))
+    pure (.new natom cfgId cutoff)
+  | "setDisp" => do let a ← jArr j; pure (.setDisp (← jNat j "obj") a)
+  | "setForces" => do let a ← jArr j; pure (.setForces (← jNat j "obj") a)
+  | "handOver" => do pure (.handOver (← jNat j "dst") (← jNat j "src"))
+  | "computeBasis" => do
+    pure (.computeBasis (← jNat j "obj") (← jOptNat j "max_order") (← jOptNatList j "orders"))
+  | "solve" => do
+    pure (.solve (← jNat j "obj") (← jOptNat j "max_order") (← jOptNatList j "orders") (← jBool j "compact"))
+  | "run" => do
+    pure (.run (← jNat j "obj") (← jOptNat j "max_order") (← jOptNatList j "orders") (← jBool j "compact"))
+  | _ => throw s!"unknown api_multi op {t}"
+
+def mErrJ : Option MErr → Json
+  | none => Json.str "ok"
+  | some .noObject => Json.str "noObject"
+  | some (.api e) => errJ (some e)
+
+def fcDictJ (fc : List (Nat × FcVal)) : Json :=
+  Json.arr (fc.map (fun (k, v) => Json.mkObj [("key", Json.num (JsonNumber.fromNat k)), ("val", fcValJ v)])).toArray
+
+/-- the object whose `force_constants` a step reports (`solve` / `run`) -/
+def mOpSolvedObj : MOp → Option Nat
+  | .solve i _ _ _ => some i
+  | .run i _ _ _ => some i
+  | _ => none
+
+def mStepJ (s' : MState) (op : MOp) (e : Option MErr) : Json :=
+  match mOpSolvedObj op with
+  | none => Json.mkObj [("result", mErrJ e)]
+  | some i =>
+    match s'.objs[i]? with
+    | none => Json.mkObj [("result", mErrJ e)]
+    | some o => Json.mkObj [("result", mErrJ e), ("fc", fcDictJ o.fc)]
+
+/-- the basis dict every object sees, as a list of `[order, cfgId, cutoff]` -/
+def mBasisJ (s : MState) : Json :=
+  Json.arr (s.objs.map (fun o =>
+    Json.arr ((heapGet s o.dictRef).map (fun (_, b) =>
+      Json.arr #[Json.num (JsonNumber.fromNat b.order), Json.num (JsonNumber.fromNat b.cfgId), optNatJ b.cutoff])).toArray)).toArray
+
+
 def stagesFor (n : Nat) : List Stage :=
   if n == 2 then Gen.stagesO2 else if n == 3 then Gen.stagesO3 else Gen.stagesO4
 def repFor (n : Nat) : RepKind :=
@@ -326,6 +378,14 @@ def handle (j : Json) : Except String Json := do
       (s', acc.2 ++ [Json.mkObj [("result", errJ e), ("state", stateJ s')]])) (s0, [])
     let _ := sfin
     pure (Json.arr outs.toArray)
+  | "api_multi" =>
+    -- several `Symfc` objects sharing basis-set dicts (Model/ApiMulti.lean), starting from no object
+    let opsj ← (← j.getObjVal? "ops").getArr?
+    let ops ← opsj.toList.mapM jMOp
+    let (sfin, outs) := ops.foldl (fun (acc : MState × List Json) op =>
+      let (s', e) := mstep apiCfg acc.1 op
+      (s', acc.2 ++ [mStepJ s' op e])) (MState.empty, [])
+    pure (Json.mkObj [("steps", Json.arr outs.toArray), ("basis", mBasisJ sfin)])
   | "check_orders" =>
     let m ← jOptNat j "max_order"; let o ← jOptNatList j "orders"
     match checkOrders apiCfg m o with
